@@ -277,12 +277,16 @@ def generated_doc(spec):
         doc.body.clear()
         doc.body.append(TOC())
         doc.body.append(Header(1, "Title a"))
+        from odfdo import Style
+
+        doc.insert_style(Style("text", name="bold", bold=True), automatic=True)
         p = Paragraph("para a  with  blanks\tand tab")
         p.set_span("bold", regex="with")
         p.insert_note(after="para", note_id="n1", citation="1", body="note a")
         doc.body.append(p)
         doc.body.append(List(["a", "b"]))
         doc.body.append(Header(2, "Sub a"))
+    places = spec.get("places") or []
     for ti, rows in enumerate(spec["tables"]):
         t = Table(f"T{ti}")
         for r in rows:
@@ -292,7 +296,35 @@ def generated_doc(spec):
             if r["rep"] > 1:
                 row.repeated = r["rep"]
             t.append_row(row)
-        doc.body.append(t)
+        place = places[ti % len(places)] if places else "body"
+        if spec["type"] != "text" or place == "body":
+            doc.body.append(t)
+        elif place == "frame-in-header":
+            frame = Frame.text_frame([Paragraph("boxed"), t], size=("5cm", "3cm"), anchor_type="as-char", name=f"box{ti}")
+            h = Header(1, f"Boxed {ti} ")
+            h.append(frame)
+            doc.body.append(h)
+        elif place == "frame-in-paragraph":
+            frame = Frame.text_frame([t], size=("5cm", "3cm"), anchor_type="paragraph", name=f"box{ti}")
+            para = Paragraph(f"holder {ti}")
+            para.append(frame)
+            doc.body.append(para)
+        elif place == "nested":
+            outer = Table(f"Outer{ti}", width=2, height=2)
+            cell = Cell()
+            cell.append(Paragraph("in cell"))
+            cell.append(t)
+            outer.set_cell((1, 0), cell)
+            outer.set_value((0, 0), "o")
+            doc.body.append(outer)
+        else:  # section
+            from odfdo import Section
+
+            sec = Section(name=f"sec{ti}")
+            sec.append(t)
+            doc.body.append(sec)
+        if spec["type"] == "text":
+            doc.body.append(Paragraph(f"after {ti}"))
     if spec["type"] == "text":
         doc.body.get_toc(position=0).fill(doc) if hasattr(doc.body, "get_toc") else None
     return doc
@@ -339,6 +371,7 @@ def run_case(case, ctx):
                 changed = [k for k in snap if after.get(k) != snap[k]] + [k for k in after if k not in snap]
                 ctx.fail(("C15", name, "modifies-document"),
                          f"{name} changed {changed} of {case['source']} (call #{_rep + 1}, outcome {res[-1][0]})", case)
+        ctx.count("outcome:" + res[0][0] + ":" + case["source"]["kind"])
         ctx.check(res[0] == res[1], ("C15", name, "unstable-answer"),
                   f"{name} answered differently the second time: {str(res[0])[:200]} / {str(res[1])[:200]}", case)
     if nt:
@@ -394,13 +427,26 @@ def run_shard(ctx):
     if ctx.shard == 0:
         ctx.extra["corpus_documents"] = len(srcs)
     cellv = st.tuples(st.sampled_from([None, None, 1, "a", "", True, 2.5]), st.integers(1, 4), st.sampled_from([None, None, "ce1"]))
+    emptyv = st.tuples(st.just(None), st.integers(1, 4), st.sampled_from([None, None, "ce1"]))
+    rowd = lambda cv: st.fixed_dictionaries({"cells": st.lists(cv, min_size=1, max_size=5), "rep": st.integers(1, 3)})  # noqa: E731
+    random_table = st.lists(rowd(cellv), min_size=1, max_size=5)
+    empty_table = st.lists(rowd(emptyv), min_size=1, max_size=3)
+    # values first, then trailing empty cells and rows (what rstrip / exports like to trim)
+    trailing_row = st.tuples(st.lists(cellv, min_size=1, max_size=3), st.lists(emptyv, min_size=1, max_size=3), st.integers(1, 3)).map(
+        lambda p: {"cells": p[0] + p[1], "rep": p[2]})
+    trailing_table = st.tuples(st.lists(trailing_row, min_size=1, max_size=3), st.lists(rowd(emptyv), min_size=1, max_size=2)).map(lambda p: p[0] + p[1])
     gen = st.fixed_dictionaries({"kind": st.just("generated"), "spec": st.fixed_dictionaries({
-        "type": st.sampled_from(["text", "spreadsheet"]),
-        "tables": st.lists(st.lists(st.fixed_dictionaries({"cells": st.lists(cellv, min_size=1, max_size=5), "rep": st.integers(1, 3)}),
-                                    min_size=1, max_size=5), min_size=1, max_size=2)})})
+        "type": st.sampled_from(["text", "text", "spreadsheet"]),
+        "places": st.lists(st.sampled_from(["body", "body", "frame-in-header", "frame-in-paragraph", "nested", "section"]), min_size=1, max_size=4),
+        "tables": st.lists(st.one_of(random_table, empty_table, trailing_table), min_size=1, max_size=4)})})
+    whole = [n for n in names if n.startswith(("doc.get_formatted_text", "doc.to_markdown", "doc.str", "body.get_formatted_text", "body.inner_text",
+                                                "body.text_recursive", "doc.get_formated_meta", "doc.show_styles"))] or names
+    if ctx.shard == 0:
+        ctx.extra["whole_document_entries"] = ", ".join(whole)
     cases = st.fixed_dictionaries({
-        "source": st.one_of(st.sampled_from(srcs), gen),
-        "program": st.lists(st.tuples(st.sampled_from(names), st.integers(0, 5)), min_size=1, max_size=12)})
+        "source": st.one_of(st.sampled_from(srcs), gen, gen),
+        "program": st.lists(st.tuples(st.one_of(st.sampled_from(names), st.sampled_from(names), st.sampled_from(whole)), st.integers(0, 5)),
+                            min_size=1, max_size=12)})
 
     def mk():
         @given(cases)
